@@ -241,6 +241,24 @@ pm_regex = re.compile(
     """, re.IGNORECASE | re.VERBOSE)
 
 
+def _all_whitespace(group_name):
+    """
+    INTERNAL USE:
+    A subpattern equivalent to ``\\s*``, except that it always takes the
+    entire run of whitespace and never gives any of it back (a lookahead
+    captures the run, and a backreference consumes it).
+
+    Several optional whitespace / filler groups follow one another in
+    ``pp_twprge_pm``. With plain ``\\s*``, a long run of spaces, tabs or
+    linebreaks after a Twp/Rge could be split between them in very many
+    ways, all of which were tried before giving up on a description
+    that mentions no principal meridian -- which took seconds for a few
+    dozen characters. None of the groups needs whitespace to be left
+    over for it, so what is matched does not change.
+    """
+    return rf"(?=(?P<{group_name}>\s*))(?P={group_name})"
+
+
 # Compile a twprge regex that should also capture P.M.
 pp_twprge_pm = re.compile(
     fr"""
@@ -248,17 +266,17 @@ pp_twprge_pm = re.compile(
     {twprge_regex.pattern}
     
     # Deadspace ...
-    (\s*[:,;\.\-–—]*\s*)
+    ({_all_whitespace('_ws1')}[:,;\.\-–—]*{_all_whitespace('_ws2')})
     
     # of the ...
-    (o*f*)?\s*(t*h*e*|t*e*h*|h*t*e|h*e*t*)?\s*
+    (o*f*)?{_all_whitespace('_ws3')}(t*h*e*|t*e*h*|h*t*e|h*e*t*)?{_all_whitespace('_ws4')}
     
     # Anything, arbitrarily capped at 25 characters.
     # (Double-curly brackets to escape the f-string syntax.)
     (.{{0,25}})
     
     # Deadspace ...
-    (\s*[:,;\.\-–—]*)
+    ({_all_whitespace('_ws5')}[:,;\.\-–—]*)
     
     # Principal Meridian pattern.
     {pm_regex.pattern}
